@@ -793,12 +793,16 @@ def desugar_closures(prog, max_rounds=4):
                     cur = fn
                 try:
                     used = _closure_args(prog, cur, t, b)
+                    items = [c for c in (_closure_of_operand(prog, cur, a, b)[0] for a in t["args"]) if c is not None and c.kind != "Closure"]
                     if _desugar_site(prog, cur, raw, b, raw["blocks"][b]["term"]):
                         n += 1
                         changed = True
                         _mark_propagation(raw, raw["blocks"][b], t)
                         for c in used:
                             absorbed.setdefault(fn.id, set()).add(c.id)
+                        for c in items:
+                            # a lib function handed over as a function item was spliced in: its closures now belong here too
+                            prog.adopt_closures(fn.id, c.id)
                 except (KeyError, IndexError, TypeError):
                     continue
             if raw is not None and changed:
